@@ -250,6 +250,14 @@ def rule_curve_ctor(ctx: Ctx, rep: Report) -> None:
     gi = ctx.func(f"{CG}.CurveGroup.__init__")
     cs = refusal_constraints(ctx, gi)
     rep.ob(rule, "p_prime", any(c.op == "falsy" and c.subject == "_is_prime(p)" for c in cs), gi.where(), "p must be prime")
+    # ... and "prime" has to mean it: a test that is one Fermat round lets the base's pseudoprimes through
+    ip = ctx.func(f"{CG}._is_prime")
+    rets = [r for r in own_nodes(ip.node) if isinstance(r, ast.Return) and r.value is not None]
+    fermat_only = len(rets) == 1 and sum(1 for x in ast.walk(rets[0].value) if isinstance(x, ast.Call) and call_name(x) == "pow") == 1 \
+        and not any(isinstance(x, (ast.For, ast.While)) for x in own_nodes(ip.node)) and not any(isinstance(x, ast.Call) and call_name(x) not in ("pow",) for x in ast.walk(rets[0].value))
+    rep.ob(rule, "_is_prime:decides_primality", not fermat_only, ip.where(),
+           "more than one Fermat round" if not fermat_only else
+           "`_is_prime` is a single Fermat test to base 2: 341 = 11*31, 561, 3277 = 29*113 pass, so a curve over a ring that is no field, or with a composite order, is built rather than refused")
     for v in ("a", "b"):
         rep.ob(rule, f"0<={v}<p", has_bound(cs, "<", 0, subject=v) is not None and (has(cs, "p", "<=", v) is not None or has(cs, v, ">=", "p") is not None), gi.where(), f"0 <= {v} < p")
     rep.ob(rule, "discriminant", any(c.subject == "d % p" and c.op == "==" and c.value == 0 for c in cs) and "d = 4 * a * a * a + 27 * b * b" in norm(gi.node), gi.where(), "4a^3 + 27b^2 != 0 (mod p)")
